@@ -53,6 +53,11 @@ THEOREMS = [
     "BeyondVerif.C08.propagate_pure_not_sgp4",
     "BeyondVerif.C08.propagate_pure_sgp4",
     "BeyondVerif.C08.iter_eq_map_propagate",
+    "BeyondVerif.C08.istep_inv",
+    "BeyondVerif.C08.interleave_pure",
+    "BeyondVerif.C08.num_points_own_propagator_matches",
+    "BeyondVerif.C08.date_range_iter_fresh_matches",
+    "BeyondVerif.C08W.interleaved_shared_propagator_retargeted",
     "BeyondVerif.C08.ident_table_matches",
     "BeyondVerif.C08.order_matches",
     "BeyondVerif.C08.step_test_matches",
@@ -95,14 +100,18 @@ LEVEL_TEXT = ("Lean theorems over an integer-microsecond model of Date.range, An
               "shared propagator and listener objects (their coordinates; for Sgp4 also their drag terms), every propagator kind, the result of the next call equals "
               "that on fresh objects holding the current orbit values (propagate_pure, by an invariant over histories; propagate_pure_not_sgp4 without any hypothesis; "
               "for Sgp4 the model's orbit value must be what Sgp4._state compares - coordinates, date, form, frame, bstar, ndot, ndotdot since 3d341d9 - "
-              "faithful_of_beq / propagate_pure_sgp4 for the world the correspondence runs). Kernel-decided regression witnesses "
+              "faithful_of_beq / propagate_pure_sgp4 for the world the correspondence runs). INTERLEAVED generators (created by Orbit.iter, advanced partly, any "
+              "other create / advance / propagate in between) are first-class state of a second history model: when no two orbit objects involved hold the same propagator "
+              "OBJECT, advancing any generator after ANY such sequence returns the next dates of a fresh uninterrupted iteration of its receiver, on the receiver's "
+              "trajectory (interleave_pure, by an invariant over operation sequences); that every point yielded by KeplerNum owns a propagator copy and that a DateRange "
+              "hands every consumer a cursor of its own is read from the AST (num_points_own_propagator_matches, date_range_iter_fresh_matches). Kernel-decided regression witnesses "
               "on the inputs of the 9 repaired findings. Model tied to the code by an exact differential correspondence (dates, error kinds, binding trace, whose trajectory, events, "
               "Listener.prev) on every run and by constants / setter kinds regenerated from the source.")
 LEVEL_NOTE = ("model hand-written (control flow), tied by exact correspondence; dates are exact integers in the model while Date carries float seconds "
               "(inputs on a 0.125 s grid where the float arithmetic is exact; date arithmetic itself is C03's); yielded STATES are abstract in the model "
               "(f(orbit value, date)) and compared on the real API by the oracle only; the numerical theorems take as a parameter any number m of integration steps "
               "that reach stop and fill the interpolation order and assume fuel > m (fuel bounds the model's loops only; the code has no bound); 9 findings fixed in "
-              "/repo are kept as regression families and kernel-decided regression witnesses; 1 clause is false of the current code (adaptive KeplerNum, default step, forward: open finding C08-num-adaptive-default-step, proposed_fixes/C08-i-keplernum-adaptive-default-step.diff); "
+              "/repo are kept as regression families and kernel-decided regression witnesses; 2 clauses are false of the current code (adaptive KeplerNum, default step, forward: open finding C08-num-adaptive-default-step, proposed_fixes/C08-i-keplernum-adaptive-default-step.diff; points of ClohessyWiltshire share one propagator object, so their iterators cannot be interleaved: open finding C08-cw-points-share-propagator, proposed_fixes/C08-j-cw-points-own-propagator.diff); "
               "Lean kernel + propext/Classical.choice/Quot.sound")
 TECHNIQUE = "Lean 4 proof by induction over the iteration loops and over call histories + kernel decide regression witnesses; exact model/implementation correspondence"
 TRUSTED = [
@@ -118,19 +127,21 @@ ASSUMPTIONS = [
     "the positioning of KeplerNum at `start` (extrapolation / retropolation from the epoch padded to DEFAULT_ORDER points, one interpolation) always succeeds and only its date enters the model",
     "Sgp4 compares (tobytes, date, form, frame, bstar, ndot, ndotdot) of the bound orbit with what its record was computed from: modelled as a relation World.sameState on abstract orbit values (in the correspondence: equality of (object, number of element changes, number of drag-term changes))",
     "Faithful (hypothesis of propagate_pure, needed for Sgp4 only): the other entries of an orbit (name, norad_id, cospar_id, element_nb, revolutions, tle, type, user attributes) reach only the labels of the TLE text built by Tle.from_orbit, not the trajectory the sgp4 package computes from the record - a statement about Tle.from_orbit / twoline2rv, not proved; exercised on the real API by the oracle (in-place changes of name / norad_id / revolutions / element_nb between calls, family sgp4-history-dependent-*-after-inplace-label-change)",
-    "a call is atomic: a suspended generator is either dropped or never resumed after another call on the same objects",
-    "in-place modifications of an orbit by the user happen between calls (modelled as the call `modify`), not while an iterator is suspended",
+    "two history models: (1) atomic calls with in-place modifications of the orbits between them (exec / runHist: a generator is consumed or dropped within its call); (2) suspended generators interleaved with other calls (istep / irun), orbit values fixed. In-place modification of an orbit WHILE one of its generators is suspended is in neither",
+    "interleaved model: a generator computes its dates at its first next() from the orbit bound then; analytical propagators read the bound orbit again at every date, KeplerNum integrates everything at the first next(); listeners are not shared between interleaved generators",
 ]
 NOT_COVERED = [
     "receiver_unchanged: in the model calls have no write access to the orbit store (a modelling decision, not a theorem); on the real code it is checked by the oracle's before/after snapshots (array bytes, date, form, frame, maneuvers, propagator identity) only",
     "equality of each yielded state with a direct propagation is by construction in the model (states are f(value, date)); on the real code: oracle, bitwise for analytical propagators and Ephem, 1 m / 1 mm/s for KeplerNum (two different RK4 paths)",
-    "resuming a suspended generator after another orbit was bound to the same shared propagator follows the LAST bound orbit (AnalyticalPropagator.iter reads self.orbit lazily) - outside the atomic-call assumption",
+    "UNSAFE interleaving in the current code, by design of the binding (modelled, in the correspondence, kernel-decided witness interleaved_shared_propagator_retargeted; not counted as a failure by the oracle): generators of two DIFFERENT orbit objects that hold the SAME propagator object - a propagator the user assigned to two orbits (`b.propagator = a.propagator`) - follow the orbit bound LAST (Orbit.iter binds when called, the generator reads propagator.orbit at its first next(), analytical propagators at every date): `ga = a.iter(..); gb = b.iter(..); next(ga)` returns b's state. Every orbit the library itself hands out owns its propagator (Orbit.copy, the points of Kepler / J2 / None / KeplerNum) - except the points of ClohessyWiltshire, which share one (open finding C08-cw-points-share-propagator). Sequential (atomic) use of a shared propagator is covered by propagate_pure",
+    "listeners shared between two interleaved generators (each clear_listeners / Listener.prev belongs to one iteration at a time) and in-place modification of an orbit while one of its generators is suspended: not modelled, not in the oracle",
     "a failing Sgp4 binding (Tle.from_orbit raises): since c604b3e the setter binds only after success; binding failures are not in the model",
     "inputs outside the quantifier, modelled and in the correspondence but without theorem: a forward range with a negative step (analytical: ValueError at once, iter_incoherent; Ephem and KeplerNum: dates until the span is left, then ValueError); step = 0 (analytical: ValueError; Ephem / KeplerNum forward: never terminates, both sides stop at the cap; KeplerNum backward: ValueError); KeplerNum.iter(start=None): AttributeError",
     "'the objects handed out do not alias what the receiver is made of' (mutating a yielded / returned state in place must not change the orbit, the points of an ephemeris, or what the same call returns next) has no counterpart in the model (states are abstract values): oracle only, over every branch of Ephem.iter (dates on / between nodes, DateRange both directions, step forward / backward on and off nodes, own points forward / backward / all), Ephem.propagate / interpolate on and between nodes, and iter / propagate of every propagator incl. KeplerNum with each method (families <kind>-alias-<branch>-*)",
     "event search (_bisect) is C10's; listeners enter here only through clear_listeners / Listener.prev / the number of events found per call",
 ]
-OPEN = ["numerical_iter_dates_forward_default_partial: with the DEFAULT step (absent / None / propagator.step itself) the forward contract is proved for fixed-step methods only (all rs = h). The excluded case - adaptive rkf54 / dopri54 - is a genuine failure of the current code (Witness numerical_default_step_raw_points, known finding C08-num-adaptive-default-step, proposed_fixes/C08-i-keplernum-adaptive-default-step.diff)",
+OPEN = ["interleave_pure assumes that no two orbit objects involved hold the same propagator object; false for the points returned by ClohessyWiltshire (open finding C08-cw-points-share-propagator, proposed_fixes/C08-j-cw-points-own-propagator.diff) and for orbits the user made share a propagator (NOT_COVERED); the interleaved model has no theorem for Ephem generators (independent by construction: oracle only)",
+        "numerical_iter_dates_forward_default_partial: with the DEFAULT step (absent / None / propagator.step itself) the forward contract is proved for fixed-step methods only (all rs = h). The excluded case - adaptive rkf54 / dopri54 - is a genuine failure of the current code (Witness numerical_default_step_raw_points, known finding C08-num-adaptive-default-step, proposed_fixes/C08-i-keplernum-adaptive-default-step.diff)",
         "Ephem.iter with start and/or stop ABSENT (defaults: the ends of the tabulated span) has no theorem of its own (modelled, in the correspondence); the clamping theorems (strict=False) are stated for a stop given as a date, not as a timedelta (which the code resolves from the unclamped start)",
         "an exclusive BACKWARD DateRange is covered by iter_dates_range / ephem_iter_dates_range / numerical_iter_dates_range_backward (the iterator yields exactly what the object yields, rangeRun) but rangeRun itself is characterised as a grid only for inclusive ranges and exclusive forward ranges"]
 RULE = ("correspondence: per propagator kind (sgp4, kepler, j2, none, num, cw, ephem) random keyword combinations of iter (start absent/None/before/at/after epoch, "
@@ -141,7 +152,11 @@ RULE = ("correspondence: per propagator kind (sgp4, kepler, j2, none, num, cw, e
         "number of events, Listener.prev and WHOSE trajectory (orbit object, number of modifications seen) the returned state lies on; non-trivial = >= 2 dates yielded "
         "resp. >= 2 calls; distinct = distinct request line. "
         "numerical propagator: every method (euler, rk4, rkf54, dopri54), step absent / None / propagator.step itself / an equal-valued object / smaller / larger / incommensurate. "
-        "oracle: the contract list start + k*step on the real API for all 7 kinds both directions (KeplerNum: every method and step form, directed cases on every seed), aliasing of the returned objects, yielded state == direct propagate from fresh objects, "
+        "interleaved generators: random sequences of create / advance k / propagate on three orbit objects (two sharing one propagator object, one owning its own; or three sibling points of one iteration), "
+        "dates, end kind and whose trajectory compared per operation. "
+        "oracle: generators consumed side by side on real objects vs alone on fresh ones (zip of sibling points, of orbits owning their propagators, two iterators of one orbit, calls between creation and consumption, "
+        "zip(range, iteration over the range), two iterations over one DateRange object, nested loop over the range, resume after list(range)), every kind, both directions; "
+        "the contract list start + k*step on the real API for all 7 kinds both directions (KeplerNum: every method and step form, directed cases on every seed), aliasing of the returned objects, yielded state == direct propagate from fresh objects, "
         "explicit lists, histories vs fresh objects (bitwise), receiver snapshots; first of all, on every seed, the directed histories of the findings this property "
         "has had (propagate / modify / propagate, two orbits on one propagator, listeners re-used over explicit dates)")
 U = 125_000            # grid of the generated dates, in microseconds (0.125 s: exact in the float seconds of Date)
@@ -432,9 +447,48 @@ def step_test_is_identity():
     raise RuntimeError(f"KeplerNum._iter: the test `if step is self.step: step = None` was not found in the shape the model knows ({found})")
 
 
+def num_points_own_propagator():
+    """KeplerNum._iter ends in `for orb in ...: yield orb.as_orbit(self.copy())`: True when the `self.copy()` call is evaluated
+    INSIDE the loop (every yielded point gets a propagator of its own), False when the points are given one object made outside"""
+    src = open(os.path.join(core.REPO, "beyond", "propagators", "keplernum.py")).read()
+    for node in ast.walk(ast.parse(src)):
+        if isinstance(node, ast.FunctionDef) and node.name == "_iter":
+            loops = [st for st in node.body if isinstance(st, ast.For)]
+            if not loops:
+                break
+            last = loops[-1]
+            ys = [y for y in ast.walk(last) if isinstance(y, ast.Yield)]
+            if len(ys) != 1 or not (isinstance(ys[0].value, ast.Call) and getattr(ys[0].value.func, "attr", None) == "as_orbit"):
+                break
+            arg = ys[0].value.args[0] if ys[0].value.args else None
+            if (isinstance(arg, ast.Call) and isinstance(arg.func, ast.Attribute) and arg.func.attr == "copy"
+                    and isinstance(arg.func.value, ast.Name) and arg.func.value.id == "self"):
+                return True
+            if isinstance(arg, ast.Name):
+                return False
+            break
+    raise RuntimeError("KeplerNum._iter: the final loop `yield orb.as_orbit(self.copy())` was not found in the shape the model knows")
+
+
+def date_range_iter_is_fresh_generator():
+    """DateRange.__iter__ is a generator function (contains `yield`) and DateRange defines no __next__: each iter(range) is an
+    independent cursor"""
+    src = open(os.path.join(core.REPO, "beyond", "dates", "date.py")).read()
+    for node in ast.walk(ast.parse(src)):
+        if isinstance(node, ast.ClassDef) and node.name == "DateRange":
+            meths = {st.name: st for st in node.body if isinstance(st, ast.FunctionDef)}
+            if "__iter__" not in meths:
+                raise RuntimeError("DateRange.__iter__ not found")
+            gen = any(isinstance(x, (ast.Yield, ast.YieldFrom)) for x in ast.walk(meths["__iter__"]))
+            return gen and "__next__" not in meths
+    raise RuntimeError("class DateRange not found in beyond/dates/date.py")
+
+
 def extract(ctx):
     order = order_of_source()
     ident = step_test_is_identity()
+    own = num_points_own_propagator()
+    fresh = date_range_iter_is_fresh_generator()
     rows = [(k, setter_keeps_object(fn, cls)) for k, fn, cls in SETTERS] + [("ephem", False)]
     txt = ("/- GENERATED by harness/props/C08.py from beyond/orbits/ephem.py and beyond/propagators/*.py on every run -/\n"
            "namespace BeyondVerif.Generated\n"
@@ -443,6 +497,10 @@ def extract(ctx):
            "def orbitSetterKeepsObject : List (String × Bool) := [" + ", ".join(f'("{k}", {"true" if v else "false"})' for k, v in rows) + "]\n"
            "/-- `KeplerNum._iter`: `if step is self.step: step = None` tests identity (true) rather than equality of values (false) -/\n"
            f"def numStepTestIsIdentity : Bool := {'true' if ident else 'false'}\n"
+           "/-- `KeplerNum._iter`: `yield orb.as_orbit(self.copy())` - the copy is made inside the loop, one per yielded point -/\n"
+           f"def numPointsOwnPropagator : Bool := {'true' if own else 'false'}\n"
+           "/-- `DateRange.__iter__` is a generator function and the class has no `__next__` -/\n"
+           f"def dateRangeIterIsFreshGenerator : Bool := {'true' if fresh else 'false'}\n"
            "end BeyondVerif.Generated\n")
     ch = core.write_if_changed(os.path.join(core.LEAN, "BeyondVerif", "Generated", "IterConst.lean"), txt)
     return ["Generated/IterConst.lean"] if ch else []
@@ -660,6 +718,117 @@ def real_trace(kind, h, npts, calls):
     return " | ".join(outs)
 
 
+# ---- interleaved generators
+
+POINT_KINDS = ["kepler", "j2", "none", "num", "cw"]     # propagators whose yielded points carry a propagator (can be iterated themselves)
+
+
+def inter_objects(kind, scenario, h):
+    """the orbit objects an interleaved scenario works on -> (objects, epochs in microseconds, index of the propagator OBJECT each holds)
+    'world': A, B (two different orbits made to share ONE propagator object) and C (the value of B, a propagator of its own);
+    'siblings': points yielded by one iteration of A (whether they share a propagator object is what the library decides)"""
+    w1 = World(kind, h=h)
+    if scenario == "world":
+        w2 = World(kind, h=h)
+        objs = [w1.orbits[0], w1.orbits[1], w2.orbits[1]]
+    else:
+        pts = w1.run_iter(0, {"stopdelta": 6 * h, "step": h})[2]
+        objs = [pts[1], pts[4], pts[2]]
+    ids = []
+    for o in objs:
+        i = id(o.propagator)
+        if i not in ids:
+            ids.append(i)
+    return w1, objs, [us_of(o.date, w1.e) for o in objs], [ids.index(id(o.propagator)) for o in objs]
+
+
+def gen_inter_ops(rng, kind, h, n_obj):
+    ops, n_it = [], 0
+    for _ in range(rng.randint(2, 8)):
+        r = rng.random()
+        if n_it == 0 or r < 0.35:
+            if rng.random() < 0.75:
+                a = {"stopdelta": rng.choice([1, 1, -1]) * rng.choice([2 * h, 3 * h + U, 5 * h]), "step": rng.choice([h, h // 2 + U, 2 * h])}
+            else:
+                a = {"dates": [rng.randrange(-4 * h // U, 4 * h // U) * U for _ in range(rng.choice([1, 2, 4]))]}
+            ops.append({"op": "create", "orb": rng.randrange(n_obj), "args": a})
+            n_it += 1
+        elif r < 0.85:
+            ops.append({"op": "advance", "it": rng.randrange(n_it), "k": rng.choice([1, 1, 2, 3, CAP])})
+        else:
+            ops.append({"op": "propagate", "orb": rng.randrange(n_obj), "date": rng.randrange(-4 * h // U, 4 * h // U) * U})
+    return ops
+
+
+def enc_iop(c):
+    if c["op"] == "create":
+        return f"C/{c['orb']}/{enc_args(c['args'])}"
+    if c["op"] == "advance":
+        return f"A/{c['it']}/{c['k']}"
+    return f"P/{c['orb']}/{c['date']}"
+
+
+def real_inter(kind, scenario, h, ops):
+    """-> (trace, epochs, propOf) of the scenario on real objects; per operation `dates candidates end`, candidates = the objects
+    whose trajectory the first returned state lies on (`*` for sibling points: they lie on one trajectory, the dates tell them apart)"""
+    import numpy as np
+    w, objs, epochs, prop_of = inter_objects(kind, scenario, h)
+    fresh = [o.copy() for o in objs]        # copies own their propagators
+    memo = {}
+
+    def cands(state):
+        if scenario != "world":
+            return "*"
+        d = us_of(state.date, w.e)
+        sc = np.array(state.copy(form="cartesian")) if kind != "cw" else np.array(state)
+        hits = []
+        for j, f in enumerate(fresh):
+            if (j, d) not in memo:
+                r0 = f.propagate(w.date(d))
+                memo[(j, d)] = np.array(r0.copy(form="cartesian")) if kind != "cw" else np.array(r0)
+            ref = memo[(j, d)]
+            if (float(np.max(np.abs(sc[:3] - ref[:3]))) <= 1.0 and float(np.max(np.abs(sc[3:] - ref[3:]))) <= 1e-3) if kind == "num" else np.array_equal(sc, ref):
+                hits.append(str(j))
+        return "/".join(hits) if hits else "?"
+    gens, outs = [], []
+    for c in ops:
+        if c["op"] == "create":
+            try:
+                kw = {k: v for k, v in w.kwargs(c["args"]).items()}
+                gens.append(objs[c["orb"]].iter(**kw))
+                outs.append(" - fuel")
+            except Exception as ex:  # noqa: BLE001
+                gens.append(None)
+                outs.append(" - " + err_kind(ex))
+        elif c["op"] == "propagate":
+            r = objs[c["orb"]].propagate(w.date(c["date"]))
+            outs.append(f"{us_of(r.date, w.e)} {cands(r)} done")
+        else:
+            g, got, fin = gens[c["it"]], [], "fuel"
+            try:
+                for _ in range(c["k"]):
+                    got.append(next(g))
+            except StopIteration:
+                fin = "done"
+            except Exception as ex:  # noqa: BLE001
+                fin = err_kind(ex)
+            outs.append(",".join(str(us_of(o.date, w.e)) for o in got) + " " + (cands(got[0]) if got else "-") + " " + fin)
+    return " | ".join(outs), epochs, prop_of
+
+
+def same_inter(real, model):
+    rc, mc = real.split(" | "), model.split(" | ")
+    if len(rc) != len(mc):
+        return False
+    for r, m in zip(rc, mc):
+        rt, mt = r.split(" "), m.split(" ")
+        if len(rt) != 3 or len(mt) != 3 or rt[0] != mt[0] or rt[2] != mt[2]:
+            return False
+        if not (rt[1] == mt[1] or rt[1] == "*" or mt[1] in rt[1].split("/")):
+            return False
+    return True
+
+
 def same_trace(real, model):
     """exact equality of the two traces, except that the implementation side names EVERY orbit version whose trajectory the
     first returned state lies on (token v<obj>.<n>/<obj>.<n>/...) and the model names one: it has to be among them"""
@@ -724,6 +893,17 @@ def correspondence(ctx):
                     c = gen_call(rng, kind, h, npts, n_orb)
                 calls.append(c)
             cases.append(("hist", kind, h, npts, calls, f"c08hist {kind} {CAP} {order} {h} {npts} 2 " + " ".join(enc_call(c) for c in calls), None))
+    # interleaved generators: created, advanced partly, other calls in between; on orbits sharing / not sharing a propagator object
+    # and on sibling points of one iteration
+    for kind in ["sgp4", "kepler", "j2", "none", "num", "cw"]:
+        for _ in range(ctx.n(24, 600)):
+            scenario = "siblings" if kind in POINT_KINDS and rng.random() < 0.5 else "world"
+            h = 60 * 8 * U
+            ops = gen_inter_ops(rng, kind, h, 3)
+            real, epochs, prop_of = real_inter(kind, scenario, h, ops)
+            line = (f"c08inter {kind} {CAP} {order} {h} " + ".".join(str(x) for x in prop_of) + " " + ".".join(str(x) for x in epochs)
+                    + " " + " ".join(enc_iop(c) for c in ops))
+            cases.append(("inter", kind, h, scenario, ops, line, real))
     model = core.Driver(ID).run([c[5] for c in cases])
     for (what, kind, h, npts, x, line, real), m in zip(cases, model):
         if what == "iter":
@@ -734,11 +914,14 @@ def correspondence(ctx):
                       args="dates" if "dates" in x else ("range" if "range" in x else "start-stop-step"),
                       **({"method": x["_method"], "step": step_form(x, h)} if kind == "num" else {}))
             fam = f"model-iter-{kind}"
+        elif what == "inter":
+            out.count(key=line, nontrivial=sum(1 for c in x if c["op"] == "advance") > 1, kind=f"interleaved-{kind}", scenario=npts)
+            fam = f"model-interleaved-{kind}"
         else:
             real = real_trace(kind, h, npts, x)
             out.count(key=line, nontrivial=len(x) > 1, kind=f"history-{kind}", calls=len(x))
             fam = f"model-history-{kind}"
-        if not (real == m if what == "iter" else same_trace(real, m)):
+        if not (real == m if what == "iter" else same_inter(real, m) if what == "inter" else same_trace(real, m)):
             out.fail(fam, "dates / error kind / binding trace differ between Model/Iter.lean and the code", {"line": line}, observed=real[:400], expected=m[:400])
         out.sample({"line": line[:200], "reply": m[:160]}, limit=4)
     return out
@@ -1103,6 +1286,108 @@ def alias_calls(kind, h, npts):
     return calls
 
 
+INTERLEAVINGS = ["zip-sibling-points", "zip-own-propagators", "two-iterators-one-orbit", "call-between-create-and-consume",
+                 "zip-range-with-iteration", "zip-two-iterations-one-range", "nested-loop-over-range", "resume-after-list-of-range"]
+
+
+def check_interleave(out, kind, h, npts, scenario, backward=False):
+    """generators consumed side by side / suspended across other calls: each must return what it returns when it is consumed
+    alone, in one go, on fresh objects. Only orbit objects that the library itself hands out or that own their propagator are
+    used (two orbits made to share one propagator object by the user are NOT_COVERED: the generator follows the last bound one)."""
+    from beyond.dates import Date
+    inp = {"check": "interleave", "kind": kind, "h": h, "npts": npts, "scenario": scenario, "backward": backward}
+    sg = -1 if backward else 1
+    inside = (npts - 1) * h
+
+    def setup():
+        w = World(kind, h=h, npts=npts)
+        o = w.orbits[0]
+        if kind == "ephem":
+            a1 = {"start": (inside if backward else 0), "stop": (inside - 4 * h if backward else 4 * h), "step": h // 2 + U}
+            a2 = {"start": (inside - h if backward else h), "stop": (inside - 5 * h - U if backward else 5 * h + U), "step": h}
+            rg = Date.range(w.date(inside - h if backward else h), w.date(inside - 6 * h if backward else 6 * h), td(sg * h), inclusive=True)
+        else:
+            a1 = {"stopdelta": sg * (4 * h + U), "step": h}
+            a2 = {"start": sg * h, "stop": sg * 4 * h, "step": h // 2 + U}
+            rg = Date.range(w.date(-sg * 2 * h), w.date(sg * 3 * h), td(sg * h), inclusive=True)
+        return w, o, a1, a2, rg
+
+    def key(objs):
+        return [(us_of(x.date, epoch()), x.tobytes()) if hasattr(x, "tobytes") else ("date", us_of(x, epoch())) for x in objs]
+
+    def alternately(ga, gb):
+        la, lb = [], []
+        for x, y in zip(ga, gb):       # stops at the shorter one
+            la.append(x)
+            lb.append(y)
+        return la, lb
+    out.count(key=(kind, scenario, backward), nontrivial=True, kind="interleave-" + kind, scenario=scenario)
+    try:
+        w, o, a1, a2, rg = setup()
+        f, fo, _, _, frg = setup()
+        if scenario == "zip-sibling-points":
+            if kind not in POINT_KINDS:
+                return
+            pts = w.run_iter(0, {"stopdelta": sg * 6 * h, "step": h})[2]
+            fpts = f.run_iter(0, {"stopdelta": sg * 6 * h, "step": h})[2]
+            kw = w.kwargs({"stopdelta": sg * 3 * h, "step": h})
+            got = alternately(pts[1].iter(**kw), pts[4].iter(**kw))
+            exp = (list(fpts[1].iter(**kw)), list(fpts[4].iter(**kw)))
+        elif scenario == "zip-own-propagators":
+            if kind == "ephem":
+                return
+            w2, f2 = World(kind, h=h, npts=npts), World(kind, h=h, npts=npts)
+            got = alternately(o.iter(**w.kwargs(a1)), w2.orbits[1].iter(**w.kwargs(a2)))
+            exp = (list(fo.iter(**f.kwargs(a1))), list(f2.orbits[1].iter(**f.kwargs(a2))))
+        elif scenario == "two-iterators-one-orbit":
+            got = alternately(o.iter(**w.kwargs(a1)), o.iter(**w.kwargs(a2)))
+            exp = (list(fo.iter(**f.kwargs(a1))), list(fo.iter(**f.kwargs(a2))))
+        elif scenario == "call-between-create-and-consume":
+            if kind == "ephem":
+                return
+            w2 = World(kind, h=h, npts=npts)
+            g = o.iter(**w.kwargs(a1))
+            w2.orbits[1].propagate(w.date(sg * 7 * h))     # another orbit, its own propagator
+            first = [next(g)]
+            o.propagate(w.date(sg * 2 * h))                # the same orbit, while its generator is suspended
+            w2.orbits[1].iter(**w.kwargs(a2))
+            got = (first + list(g), [])
+            exp = (list(fo.iter(**f.kwargs(a1))), [])
+        elif scenario == "zip-range-with-iteration":
+            got = alternately(iter(rg), o.iter(dates=rg))
+            exp = (list(frg), list(fo.iter(dates=frg)))
+        elif scenario == "zip-two-iterations-one-range":
+            o2 = o if kind == "ephem" else World(kind, h=h, npts=npts).orbits[1]
+            fo2 = fo if kind == "ephem" else World(kind, h=h, npts=npts).orbits[1]
+            got = alternately(o.iter(dates=rg), o2.iter(dates=rg))
+            exp = (list(fo.iter(dates=frg)), list(fo2.iter(dates=frg)))
+        elif scenario == "nested-loop-over-range":
+            outer, inner = [], []
+            for x in o.iter(dates=rg):
+                outer.append(x)
+                inner = list(rg)
+            got = (outer, inner)
+            exp = (list(fo.iter(dates=frg)), list(frg))
+        else:   # resume-after-list-of-range
+            g = o.iter(dates=rg)
+            first = [next(g), next(g)]
+            whole = list(rg)
+            got = (first + list(g), whole)
+            exp = (list(fo.iter(dates=frg)), list(frg))
+    except Exception as ex:  # noqa: BLE001
+        out.fail(f"{kind}-interleave-{scenario}-raises-{err_kind(ex)}", "interleaved consumption raises", inp, observed=repr(ex)[:200])
+        return
+    n = [min(len(exp[0]), len(exp[1])) if scenario.startswith("zip") or scenario == "two-iterators-one-orbit" else len(exp[0]), None]
+    n[1] = n[0] if scenario.startswith("zip") or scenario == "two-iterators-one-orbit" else len(exp[1])
+    e0, e1 = key(exp[0][:n[0]]), key(exp[1][:n[1]])
+    g0, g1 = key(got[0]), key(got[1])
+    if (g0, g1) != (e0, e1):
+        what = "dates" if ([x[0] if x[0] != "date" else x[1] for x in g0 + g1] != [x[0] if x[0] != "date" else x[1] for x in e0 + e1]) else "states"
+        out.fail(f"{kind}-interleave-{scenario}-{what}", "generators consumed side by side (or suspended across other calls) do not return what each returns when consumed alone",
+                 inp, observed=[[x[0] if x[0] != "date" else x[1] for x in g0][:12], [x[0] if x[0] != "date" else x[1] for x in g1][:12]],
+                 expected=[[x[0] if x[0] != "date" else x[1] for x in e0][:12], [x[0] if x[0] != "date" else x[1] for x in e1][:12]])
+
+
 def directed_iters(kind, h):
     """numerical propagator: the default step in its three forms and explicit steps equal to / smaller than / larger than /
     incommensurate with the propagator's, forward and backward, on every seed (the integration method is varied by the caller)"""
@@ -1139,6 +1424,9 @@ def _oracle(ctx, widened):
             check_history(out, kind, 60 * 8 * U, 12, calls)
         for branch, call in alias_calls(kind, 60 * 8 * U, 12):
             check_alias(out, kind, 60 * 8 * U, 12, branch, call)
+        for scenario in INTERLEAVINGS:
+            for backward in (False, True):
+                check_interleave(out, kind, 60 * 8 * U, 12, scenario, backward)
     for method in ("euler", "rk4", "rkf54", "dopri54"):
         for a in directed_iters("num", 60 * 8 * U):
             check_iter(out, World("num", h=60 * 8 * U, method=method), a, order, 12, states=False)
@@ -1209,6 +1497,8 @@ def replay(f):
         check_dates_list(out, World(i["kind"], h=i["h"], npts=i["npts"]), i["dates"], i["npts"], order)
     elif i.get("check") == "history":
         check_history(out, i["kind"], i["h"], i["npts"], i["calls"])
+    elif i.get("check") == "interleave":
+        check_interleave(out, i["kind"], i["h"], i["npts"], i["scenario"], i.get("backward", False))
     elif i.get("check") == "alias":
         check_alias(out, i["kind"], i["h"], i["npts"], i["branch"], i["call"], method=i.get("method", "rk4"))
     return out
